@@ -47,6 +47,7 @@ fn u9_perform_brick() {
 }
 
 //@ obligation: U9.perform.bool
+//@ cost: heavy
 //@ props: C15
 //@ fns: PropertyMigration::perform[IgnoreGuiInsetToScreenInsets]
 //@ kind: complete
